@@ -162,6 +162,10 @@ STREAM_KINDS = {
     'file:rb':         {'readOnly': True},
     'text:r+':         {'text': True},
     'text:a':          {'text': True, 'append': True},
+    # text the caller wrote through the text layer just before the call and did not flush: it sits in the TextIOWrapper's
+    # buffer and reaches the file at the next flush / seek / close - for the model it is content written at the position
+    'text:r+:pending': {'text': True},
+    'text:a:pending':  {'text': True, 'append': True},
     'text:r':          {'text': True, 'readOnly': True},
     'stringio':        {'text': True},
     'pipe':            {'seekable': False},
@@ -588,6 +592,9 @@ def _run_file(torf, cd, c, t, obs):
                 pass
 
 
+PENDING_TEXT = b'stale text\n'
+
+
 def _open_stream(cd, kind, prior, pos):
     """returns (stream, finish) where finish() -> (content bytes | None, pos | None) and releases everything"""
     parts = kind.split(':')
@@ -678,6 +685,8 @@ def _run_stream(torf, cd, c, t, obs):
         with open(os.path.join(cd, 'stream.bin'), 'rb') as f:       # read-back of the prepared stream
             ok = f.read() == prior
     try:
+        if ok and kind.endswith(':pending'):
+            inner.write(PENDING_TEXT.decode('latin-1'))                 # no flush
         if ok:
             with _FsizeLimit(fault['fsize'] if fault and 'fsize' in fault else None):
                 obs['result'] = _result(torf, lambda: t.write_stream(s, validate=c['validate']))
@@ -747,6 +756,12 @@ def _stream_model(c, obs):
     pos = obs['pos0'] if seekable else 0
     if c['stream'].startswith('text'):
         pos = min(pos, len(prior))
+    if c['stream'].endswith(':pending'):
+        if flags.get('append'):
+            prior, pos = prior + PENDING_TEXT, len(prior) + len(PENDING_TEXT)
+        else:
+            prior = prior[:pos] + PENDING_TEXT + prior[pos + len(PENDING_TEXT):]
+            pos += len(PENDING_TEXT)
     s = {'content': prior.hex(), 'pos': pos, **flags}
     f = c.get('fault') or {}
     if 'at' in f:
